@@ -36,7 +36,9 @@ ASSUME = [
 RULE = ("ALL ordered pairs of catalogue types of different families as a type change on one indexed column, then seeded random base schemas (every fifth with collations on string columns, every third with generated columns, nullable explicit or unset; default changes include near-misses: other letter case, a surrounding blank, a trailing character) (1-4 tables as for C06) x every kind of the 12-kind mutation catalogue that can be instantiated on "
         "the base (random instance per kind); each case compares db(A) with m(A) under the 4 compare_type x compare_server_default "
         "settings. every case is non-trivial (a real change is applied); distinct by the encoded (A, m). "
-        "Then lists of 2-7 changes at once on random bases in four shapes: same_table (2-5 changes inside one table, half with a removed "
+        "Every fourth base carries ANONYMOUS unique constraints (Column(unique=True) / unnamed UniqueConstraint, reflected with name None) and gets every index / unique change twice (outside the proved class: judged by decider and exact correspondence). "
+        "An include_schemas=True slice: tables of the same name in main and in an ATTACHed database with different indexes, every table-level kind of change on one of the twins. "
+        "Then lists of 2-7 changes at once on random bases in five shapes: cons_table (2-4 index / unique changes inside one table that carries anonymous unique constraints), same_table (2-5 changes inside one table, half with a removed "
         "column together with at least as many added ones), drop_target (a table removed together with every foreign key pointing at it "
         "from tables that stay, plus up to 2 more changes), add_target (a table added together with a foreign key to it from a table that "
         "was there), mixed")
@@ -62,8 +64,13 @@ def _cases(rnd, nbase):
             S.decorate(rnd, A)                 # CHECK constraints / expression indexes: invisible to the comparison
         if k % 5 == 1:
             S.add_collations(random.Random(k), [A])      # string columns with a collation: invisible as well
-        for kind in S.MUT_KINDS:
+        anon = k % 4 == 2
+        if anon:                               # ANONYMOUS unique constraints (Column(unique=True) / unnamed UniqueConstraint): reflected
+            S.add_uuqs(random.Random(k), A)    # with name None; outside the proved class, judged by decider and correspondence
+        for kind in S.MUT_KINDS + (["add_cons", "drop_cons", "change_cons", "drop_cons"] if anon else []):
             m = S.gen_mutation(rnd, A, kind)
+            if m is not None and anon and S.uuq_clash(S.apply_mutation(A, m)):
+                m = None
             if m is not None:
                 h = {"A": A, "m": m}
                 if k % 4 == 0:                 # ... also when they differ between the database and the changed model
@@ -71,7 +78,33 @@ def _cases(rnd, nbase):
                 yield h
 
 
-SHAPES = ["same_table", "drop_target", "add_target", "mixed"]
+def _schema_cases(rnd, nbase):
+    """include_schemas=True: tables of the same name in main and in an ATTACHed database (table code = 100 * schema + name), with
+    different indexes / constraints; every table-level kind of change on one of the twins (index / unique changes twice), single and
+    as a list"""
+    import copy
+    kinds = S._TABLE_KINDS + ["add_cons", "drop_cons", "change_cons"]
+    for k in range(nbase):
+        A = S.gen_schema(rnd, 3)
+        twins = []
+        for t in rnd.sample(A, min(len(A), rnd.choice([1, 1, 2]))):
+            code = 100 + t["name"]
+            tw = S.gen_table(rnd, code, code * 10)
+            for c in tw["cols"]: c[5] = None if (c[5] is not None and c[5][0] == "expr") else c[5]
+            while len(tw["cons"]) < 2 and S.add_cons(rnd, tw, code * 10 + 5 + len(tw["cons"])): pass
+            twins += [t["name"], code]
+            A.append(tw)
+        for kind in kinds:
+            m = S.gen_mutation(rnd, A, kind, rnd.choice(twins))
+            if m is not None:
+                yield {"A": A, "m": m, "attached": [1]}
+        if k % 2 == 0:
+            ms = S.gen_mut_seq(rnd, A, rnd.choice(["cons_table", "same_table", "mixed"]))
+            if ms is not None:
+                yield {"A": A, "ms": ms, "shape": "schemas", "attached": [1]}
+
+
+SHAPES = ["same_table", "drop_target", "add_target", "mixed", "cons_table"]
 
 
 def _seq_cases(rnd, n):
@@ -82,7 +115,9 @@ def _seq_cases(rnd, n):
         A = S.gen_schema(rnd)
         if tries % 3 == 0:
             S.add_computed(rnd, A, 0.7)
-        shape = min(SHAPES, key=lambda s: (count[s], SHAPES.index(s)))      # the four shapes in equal numbers
+        shape = min(SHAPES, key=lambda s: (count[s], SHAPES.index(s)))      # the shapes in equal numbers
+        if shape == "cons_table" or tries % 5 == 0:
+            S.add_uuqs(random.Random(tries), A)                             # anonymous unique constraints on the tables
         ms = S.gen_mut_seq(rnd, A, shape)
         if ms is None: continue
         count[shape] += 1
@@ -94,7 +129,8 @@ def generate(tier, seed):
     for A, y in S.type_matrix(False):         # every ordered pair of catalogue types of different (non-synonymous) families
         yield {"A": A, "m": ["change_type", 0, 1, y]}
     yield from _seq_cases(random.Random(seed * 31337 + 7), 400 if tier == "quick" else 4000)
-    yield from _cases(rnd, 300 if tier == "quick" else 4000)
+    yield from _cases(rnd, 270 if tier == "quick" else 4000)
+    yield from _schema_cases(random.Random(seed * 48611 + 7), 40 if tier == "quick" else 800)
 
 
 def search(tier, seed):
@@ -111,13 +147,14 @@ def run_case(h):
     if "deco_seed" in h:
         S.decorate(random.Random(h["deco_seed"]), B, 0.7)
     mdB = S.build_metadata(B)
-    e = S.fresh_db(A)
+    attached = h.get("attached", [])
+    e = S.fresh_db(A, attached)
     outs, qs = [], []
     try:
         with e.connect() as conn:
             for cfg in S.ALL_CFGS:
                 try:
-                    _, ms = S.compare(conn, mdB, cfg)
+                    _, ms = S.compare(conn, mdB, cfg, include_schemas=bool(attached))
                 except Exception as ex:          # observable: no result under this setting (the decider wants all four)
                     outs.append({"cfg": list(cfg), "error": type(ex).__name__})
                     continue
@@ -130,7 +167,7 @@ def run_case(h):
         cin = "(%s, %s)" % (S.q_schema(A), cf.lst(S.q_mut(m) for m in h["ms"]))
         return dict(cin=cin, cout=cf.lst(qs), out=outs, nontrivial=True, shape="seq_" + h["shape"], suite="seq")
     cin = "(%s, %s)" % (S.q_schema(A), S.q_mut(h["m"]))
-    return dict(cin=cin, cout=cf.lst(qs), out=outs, nontrivial=True, shape=h["m"][0])
+    return dict(cin=cin, cout=cf.lst(qs), out=outs, nontrivial=True, shape=("schemas_" if attached else "") + h["m"][0])
 
 
 def canary(human, rec):
